@@ -13,7 +13,7 @@ import subprocess
 
 from common import GOENV
 
-THEOREMS = "clq_linearizable, clq_step_refines_fifo, clq_no_panic, clq_tail_cas_succeeds"
+THEOREMS = "clq_linearizable, clq_linearizable_textbook, clq_step_refines_fifo, clq_no_panic, clq_tail_cas_succeeds"
 
 
 def stress(c, binary, configs, seed0=0):
@@ -94,6 +94,28 @@ RULE = ("ConcurrentLinkedQueue: lock-step schedules = model-chosen interleavings
 ASSUMPTIONS = [
     "sync/atomic LoadPointer / CompareAndSwapPointer are atomic and sequentially consistent (Go memory model); Go is memory safe and garbage collected (no ABA: a node address is never reused while referenced)",
     "interleavings inside one Go statement are not modelled (every statement of concurrent_linked_queue.go contains at most one shared access)",
-    "linearizability is proved in linearisation-point form (see props/C06_clq.v for the exact statement)",
+    "linearizability is proved in linearisation-point form and, derived from it, in the textbook permutation form (props/C06_clq.v states both precisely)",
 ]
 TRUSTED = ["ocaml/lockstep.ml + drv_clq.ml (label table), harness/clq (Instance + stress monitors), porcupine v1.3.0 (search oracle only)"]
+
+
+if __name__ == "__main__":
+    # stand-alone development run (no evidence file, replays of this run are removed): python3 checks/part_clq.py [quick|thorough]
+    import json, os, shutil, sys
+    from common import Check
+    tier = sys.argv[1] if len(sys.argv) > 1 else "quick"
+    c = Check("C06", tier)
+    c.ensure_modelrun()
+    ov, labels = c.instrument()
+    binary, log = (None, labels) if ov is None else c.build_harness(extra_overlay=ov, pkgs=["clq", "lockstep"])
+    if binary is None:
+        print("instrumented harness does not build:\n" + str(log)[-3000:])
+    else:
+        res = run(c, binary, labels, tier, "c06")
+        print(json.dumps({"lockstep": c.cov.get("clq_lockstep"), "stress": c.cov.get("clq_stress"),
+                          "skeleton_problems": res["problems"][:5], "mismatch": [m[:1500] for m in res["mismatches"][:1]]}, indent=1))
+    for v in c.violations:
+        print("VIOLATION", v[2] if len(v) > 2 else "", v[1])
+        print(open(v[0]).read()[:2000])
+        os.remove(v[0])
+    shutil.rmtree(c.tmp, ignore_errors=True)
